@@ -927,26 +927,40 @@ where
     T: Hash + Eq,
     str: Equivalent<T>,
 {
-    let (from, replaced) = set.replace_full(rule);
+    // Resolve the anchors before modifying the set, so that an error leaves it unchanged.
+    let after_idx = after
+        .map(|rule_id| set.get_index_of(rule_id).ok_or(InsertPushRuleError::UnknownRuleId))
+        .transpose()?;
+    let before_idx = before
+        .map(|rule_id| set.get_index_of(rule_id).ok_or(InsertPushRuleError::UnknownRuleId))
+        .transpose()?;
 
-    let mut to = default_position;
-
-    if let Some(rule_id) = after {
-        let idx = set.get_index_of(rule_id).ok_or(InsertPushRuleError::UnknownRuleId)?;
-        to = idx + 1;
-    }
-    if let Some(rule_id) = before {
-        let idx = set.get_index_of(rule_id).ok_or(InsertPushRuleError::UnknownRuleId)?;
-
-        if idx < to {
+    if let (Some(after_idx), Some(before_idx)) = (after_idx, before_idx) {
+        if before_idx <= after_idx {
             return Err(InsertPushRuleError::BeforeHigherThanAfter);
         }
-
-        to = idx;
     }
 
+    let (from, replaced) = set.replace_full(rule);
+
     // Only move the item if it's new or if it was positioned.
-    if replaced.is_none() || after.is_some() || before.is_some() {
+    let to = if let Some(idx) = before_idx {
+        Some(idx)
+    } else if let Some(idx) = after_idx {
+        Some(idx + 1)
+    } else if replaced.is_none() {
+        Some(default_position.min(set.len() - 1))
+    } else {
+        None
+    };
+
+    if let Some(mut to) = to {
+        // The target index was computed with the rule still at its previous position: if that
+        // position is before the target, taking the rule out shifts the target down by one.
+        if replaced.is_some() && from < to {
+            to -= 1;
+        }
+
         set.move_index(from, to);
     }
 
